@@ -33,7 +33,16 @@ impl SwiftField for Field86 {
         let mut lines = Vec::new();
 
         // Parse up to 6 lines of 65 characters each
-        for line in input.lines().take(6) {
+        let content = super::field_utils::content_lines(input, "Field 86")?;
+        if content.len() > 6 {
+            return Err(ParseError::InvalidFormat {
+                message: format!(
+                    "Field 86 cannot have more than 6 lines, found {}",
+                    content.len()
+                ),
+            });
+        }
+        for line in content {
             // Validate line length (max 65 characters)
             if line.len() > 65 {
                 return Err(ParseError::InvalidFormat {
